@@ -382,6 +382,11 @@ func propC12(c *Ctx) int {
 		j.Name, j.Fn, j.Params, j.MustReach = fmt.Sprintf("exact description text k=%d", k), "HScanExactDescription", map[string]int64{"k": k}, []string{"description-exact"}
 		c.RunJob(j)
 	}
+	{
+		j := base
+		j.Name, j.Fn, j.Params, j.MustReach = "description text ended by keyword x tail", "HScanDescriptionEnd", nil, []string{"description-end-exact"}
+		c.RunJob(j)
+	}
 	kc := int64(8)
 	if thorough {
 		kc = 14
@@ -397,6 +402,7 @@ func propC12(c *Ctx) int {
 		fmt.Sprintf("comments (HScanComment): a line comment / block comment with %d arbitrary content bytes (block: no ### inside, not ending in #) as trailing comment, comment line or last line of the file, followed by further directives and a block comment: the lexeme stream is exactly that of the directives (a comment yields nothing and hides nothing)", kc),
 		"exactness of bodies (a # comment after a jsight / enum body is a comment of the schema language: there the body lexeme may extend into it, as jsight-schema-core's Len() decides): 6 templates (TYPE/ENUM/regex/Body/Headers/Request bodies) followed by 2/4 symbolic trivia bytes (blanks, line ends, # comments): body lexeme = rendered body; Description free text of 1..2/4 arbitrary bytes ended by the next directive: Text lexeme = bytes between the keyword line and the next keyword",
 		fmt.Sprintf("well-formedness: every file of <= %d arbitrary bytes, and %d arbitrary bytes after each of %d state-witness prefixes; exactness: directive lines KW (P1)? (P2)? (annotation)? line-end for 14 keywords with symbolic parameter/annotation bytes (fields <= 3/4 bytes), bare and quoted, // and /* */, LF/CRLF/CR/EOF", maxN, k, NumC12Prefixes-1),
+		"end of a Description free text (HScanDescriptionEnd): the text is followed by a directive line whose keyword (26 keywords, every length from 3 to 11 bytes, two response codes) and tail (LF / CRLF / CR, blank + line end, a parameter before a line end or end of file, a comment, another directive line) are symbolic choices, with symbolic indentation and line end of the text line: the Text lexeme ends exactly in front of the keyword and the keyword is reported",
 		"lexeme grammar automaton and expected extents are computed in the harness (harness/scanner/zz_verif_c12.go, zz_verif_c12x.go)",
 		"schema/enum body extents are decided by jsight-schema-core (executed from its SSA); their content is outside the claim",
 		contractLoc, contractRune,
